@@ -255,6 +255,10 @@ func TestVerifC06(t *testing.T) {
 					}
 				}
 				aead, err := newAEAD(c.key, len(c.nonce), c.tag)
+				if err == errComboUnreachable {
+					r.Class("trivial:nonce-x-tag-not-offered-on-this-path")
+					return
+				}
 				if err != nil {
 					r.Violation("cannot-construct-aead:"+pn, hk.D{"err": err.Error(), "nonce": len(c.nonce), "tag": c.tag})
 					return
@@ -296,10 +300,16 @@ func TestVerifC06(t *testing.T) {
 				// the standard's output must follow the prefix
 				if !p && i%2 == 0 {
 					pre := []int{1, 5, 16, 33}[(i/8)%4]
-					shape := (i / 2) % 4
+					shape := (i / 2) % 5
 					pt := c.pt
 					var dst []byte
 					switch shape {
+					case 4:
+						// in place, but the plaintext's array has NO room for the tag: the result needs a new array while the
+						// old one still holds the plaintext that is being read
+						buf := make([]byte, len(c.pt))
+						copy(buf, c.pt)
+						pt, dst, pre = buf, buf[:0:len(buf)], 0
 					case 0:
 						dst = make([]byte, pre, pre+len(c.pt)+c.tag)
 					case 1:
@@ -319,7 +329,7 @@ func TestVerifC06(t *testing.T) {
 					p2, msg2, _, _ := hk.Try(func() { got2 = aead.Seal(dst, c.nonce, pt, c.aad) })
 					if p2 || len(got2) != pre+len(want) || !bytes.Equal(got2[:pre], keep) || !bytes.Equal(got2[pre:], want) {
 						d := c.detail()
-						d["panic"], d["dst_shape"], d["dst_len"], d["returned"] = msg2, []string{"exact-room", "ample-room", "too-little-room", "in-place"}[shape], pre, clip(got2)
+						d["panic"], d["dst_shape"], d["dst_len"], d["returned"] = msg2, []string{"exact-room", "ample-room", "too-little-room", "in-place", "in-place-without-room-for-the-tag"}[shape], pre, clip(got2)
 						r.Violation(fmt.Sprintf("seal-into-dst-differs-from-sp800-38d:%s:%s", pn, lab), d)
 					}
 				}
